@@ -169,13 +169,16 @@ def oracle_legacy(cfg, urs, outs):
     """legacy three-point curve accepted by validate(): defined, non-decreasing and borrow >= base for every utilisation from
     0 to 200% whenever the numbers are far from the I80F48 range (rates below 2^20, optimal utilisation in [0.1%, 99.9%])"""
     fees_ok = all(0 <= f < (1 << 60) for f in cfg["fees"]) and (not cfg["prog_on"] or (0 <= cfg["pf"] < (1 << 60) and 0 <= cfg["pr"] < (1 << 60)))
-    benign = fees_ok and 0 < cfg["pl"] < (ONE << 20) and cfg["pl"] < cfg["mx"] < (ONE << 20) and ONE // 1000 <= cfg["opt"] <= ONE - ONE // 1000
+    rates_ok = fees_ok and 0 <= cfg["pl"] < (ONE << 20) and 0 <= cfg["mx"] < (ONE << 20)
+    # up to 100% both segments interpolate (no large quotient whatever the kink position, an optimal utilisation of exactly 0
+    # or 1 included); beyond 100% the second segment extrapolates with slope (max - plateau) / (1 - optimal)
+    benign_hi = rates_ok and cfg["opt"] <= ONE - ONE // 1000
     prev = None
     for ur, o in zip(urs, outs):
         if not (0 <= ur <= 2 * ONE):
             continue
         if o in ("NONE", "PANIC"):
-            if benign:
+            if rates_ok if ur <= ONE else benign_hi:
                 return {"key": "accepted-curve-fails", "what": f"legacy curve: calc_interest_rate returned {o} at ur={ur} ({ur / ONE:.4f}) for an accepted curve with benign numbers"}
             continue
         base, lend, borrow = map(int, o.split()[:3])
